@@ -118,3 +118,96 @@ Proof.
       + apply (powS nat _ 0 [1] []); [|constructor]. left. exists [1], []. split; [reflexivity|]. split; reflexivity. }
   split; auto. apply (C09_compile_pruned_preserves_language C09_ex C09_ex_rules C09_compile_example). exact H.
 Qed.
+
+(* ---- operators INSIDE terminals: the regular-expression level (Re/) --------------------------------------
+   Re/TermPattern.compile models TerminalTreeToPattern (format strings and the sort key of the alternatives
+   regenerated from the source); Re/Lang.bt_match / bt_fullmatch model Python's re.match / re.fullmatch
+   (leftmost alternative first, greedy quantifiers, backtracking) on the AST of the compiled regexp. *)
+From Coq Require Import Ascii.
+From LV Require Import Re.Syntax Re.Lang Re.Lang_proofs Re.Width Re.TermPattern Re.TermPattern_proofs.
+
+(* x~n..m inside a terminal, for every operand x and all n <= m: the compiled pattern fully matches w
+   iff w is k consecutive full matches of x's compiled pattern for some n <= k <= m *)
+Theorem C09_terminal_repeat_exact x n m w :
+  n <= m ->
+  (bt_fullmatch (p_re (compile (TOp x (OpRange n m)))) w = true <->
+   exists k, n <= k <= m /\ rpow (fun u => bt_fullmatch (p_re (compile x)) u = true) k w).
+Proof. intros H. exact (compile_op_fullmatch x (OpRange n m) w (proj2 (Nat.leb_le n m) H)). Qed.
+Print Assumptions C09_terminal_repeat_exact.
+
+Theorem C09_terminal_exact_exact x n w :
+  bt_fullmatch (p_re (compile (TOp x (OpExact n)))) w = true <->
+  exists k, k = n /\ rpow (fun u => bt_fullmatch (p_re (compile x)) u = true) k w.
+Proof. exact (compile_op_fullmatch x (OpExact n) w eq_refl). Qed.
+Print Assumptions C09_terminal_exact_exact.
+
+Theorem C09_terminal_opt_exact x w :
+  bt_fullmatch (p_re (compile (TOp x OpOpt))) w = true <->
+  exists k, k <= 1 /\ rpow (fun u => bt_fullmatch (p_re (compile x)) u = true) k w.
+Proof. exact (compile_op_fullmatch x OpOpt w eq_refl). Qed.
+Print Assumptions C09_terminal_opt_exact.
+
+Theorem C09_terminal_star_exact x w :
+  bt_fullmatch (p_re (compile (TOp x OpStar))) w = true <->
+  exists k, True /\ rpow (fun u => bt_fullmatch (p_re (compile x)) u = true) k w.
+Proof. exact (compile_op_fullmatch x OpStar w eq_refl). Qed.
+Print Assumptions C09_terminal_star_exact.
+
+Theorem C09_terminal_plus_exact x w :
+  bt_fullmatch (p_re (compile (TOp x OpPlus))) w = true <->
+  exists k, 1 <= k /\ rpow (fun u => bt_fullmatch (p_re (compile x)) u = true) k w.
+Proof. exact (compile_op_fullmatch x OpPlus w eq_refl). Qed.
+Print Assumptions C09_terminal_plus_exact.
+
+(* a whole terminal definition (operators nested in any way, alternatives sorted by lark): the compiled
+   pattern fully matches exactly the documented meaning of the definition; what re.match reports is a
+   prefix with that meaning, and None means no prefix has it *)
+Theorem C09_terminal_definition_exact t w :
+  tt_ok t = true -> (bt_fullmatch (p_re (compile t)) w = true <-> tden t w).
+Proof. exact (compile_fullmatch t w). Qed.
+Print Assumptions C09_terminal_definition_exact.
+
+Theorem C09_terminal_match_sound t s n :
+  tt_ok t = true -> bt_match (p_re (compile t)) s = Some n -> tden t (firstn n s).
+Proof. exact (compile_match_sound t s n). Qed.
+Print Assumptions C09_terminal_match_sound.
+
+Theorem C09_terminal_match_none t s :
+  tt_ok t = true -> bt_match (p_re (compile t)) s = None -> forall n, ~ tden t (firstn n s).
+Proof. exact (compile_match_none t s). Qed.
+Print Assumptions C09_terminal_match_none.
+
+(* the string lark hands to `re` is the concrete syntax of the AST the matcher runs on, bracketed where
+   regexp precedence needs it *)
+Theorem C09_terminal_regexp_string t :
+  show (p_re (compile t)) = to_regexp (compile t) /\ bracketed (p_re (compile t)) = true.
+Proof. exact (conj (show_compile t) (bracketed_compile t)). Qed.
+Print Assumptions C09_terminal_regexp_string.
+
+(* the matcher itself: sound and complete for the declarative language of any regexp of the class *)
+Theorem C09_re_match_sound r s n : bt_match r s = Some n -> n <= List.length s /\ lang r (firstn n s).
+Proof. exact (bt_match_sound r s n). Qed.
+Print Assumptions C09_re_match_sound.
+
+Theorem C09_re_match_none r s : bt_match r s = None -> forall n, ~ lang r (firstn n s).
+Proof. exact (bt_match_none r s). Qed.
+Print Assumptions C09_re_match_none.
+
+Theorem C09_re_fullmatch r s : bt_fullmatch r s = true <-> lang r s.
+Proof. exact (bt_fullmatch_iff r s). Qed.
+Print Assumptions C09_re_fullmatch.
+
+(* Non-vacuity:  T: ("a(" | "b"+)~2..3 /[a-c]/ "x".."z" ["q"] |      (an empty second alternative) *)
+Definition C09_tex : ttree :=
+  TAlt [TSeq [TOp (TAlt [TSeq [TStr "a("]; TSeq [TOp (TStr "b") OpPlus]]) (OpRange 2 3);
+              TCls false [("a"%char, "c"%char)]; TRange "x" "z"; TOp (TAlt [TSeq [TStr "q"]]) OpOpt];
+        TSeq []].
+
+Example C09_terminal_example :
+  tt_ok C09_tex = true /\
+  to_regexp (compile C09_tex) = "(?:(?:(?:(?:b)+|a\()){2,3}[a-c][x-z](?:q)?|)"%string /\
+  bt_match (p_re (compile C09_tex)) (codes "bba(bbcxqq") = Some 9 /\
+  bt_fullmatch (p_re (compile C09_tex)) (codes "a(a(a(a(by") = false /\
+  bt_fullmatch (p_re (compile C09_tex)) (codes "a(a(a(by") = true /\
+  bt_fullmatch (p_re (compile C09_tex)) (codes "bby") = false.
+Proof. vm_compute. repeat split; reflexivity. Qed.
